@@ -23,6 +23,7 @@ meta = {
  'checks_run_against_it': 'tools/mutant.sh <patch> <ID> quick (scratch copy of /repo with the patch applied; same harness, FLOUNDER_SRC pointing at the copy)',
  'caught_by': [c for c in caught.split(',') if c],
  'notes': notes,
+ 'round': int(os.environ.get('SEED_ROUND', '3')),
 }
 json.dump(meta, open(os.path.join(dst, 'meta.json'), 'w'), indent=1)
 print('kept', dst, os.listdir(dst))
